@@ -69,7 +69,7 @@ def translate():
     key = hash_files(repo_sources() + sorted(glob.glob(os.path.join(VERIF, "tools", "*.py"))))
     stamp = os.path.join(BUILD, "translate", "stamp")
     gen_ok = all(os.path.exists(os.path.join(COQ, "Gen", f)) for f in
-                 ("Consts.v", "Layout.v", "Arith.v", "Tables.v", "Macros.v", "Rtap.v"))
+                 ("Consts.v", "Layout.v", "Arith.v", "Tables.v", "Macros.v", "Rtap.v", "Globals.v"))
     if gen_ok and os.path.exists(stamp) and open(stamp).read() == key:
         try:
             return json.load(open(os.path.join(BUILD, "translate", "translate.json")))
@@ -197,7 +197,7 @@ def build_driver():
     for s in srcs:
         shutil.copy(s, ex)
     ops = sorted(os.path.basename(p) for p in glob.glob(os.path.join(VERIF, "ocaml", "ops_*.ml")))
-    first = [x for x in ("ops_rtap.ml",) if x in ops]          # modules other ops files refer to
+    first = [x for x in ("ops_rtap.ml", "ops_tags.ml") if x in ops]          # modules other ops files refer to
     order = ["model.mli", "model.ml", "conv.ml"] + first + [x for x in ops if x not in first] + ["driver.ml"]
     rc, out = sh(["ocamlfind", "ocamlopt", "-w", "-a"] + order + ["-o", "driver"], cwd=ex, timeout=900)
     if rc != 0:
